@@ -289,6 +289,8 @@ impl KeyValueStore {
                     .with_debug_field("imm", imm_setsum.hexdigest());
                 return Err(err);
             }
+            #[cfg(blue_verif)]
+            verif_events::point("f_sealed", imm_trigger, 0, 0);
             self.tree._ingest(&sst_path, Some(imm_trigger))?;
             #[cfg(blue_verif)]
             verif_events::point("f_ingested", imm_trigger, 0, 0);
